@@ -16,6 +16,7 @@ INVARIANT LawParse
 INVARIANT LawReprint
 INVARIANT LawRoundTripEqual
 INVARIANT LawSetPrint
+INVARIANT LawReparse
 INVARIANT LawSolAll
 INVARIANT LawSolAligned
 PROPERTY LawSpelling
